@@ -59,6 +59,13 @@ def run(tier, rng, C):
             inv, failing = selector_inv(rng)
         else:
             inv, failing = P13.multi_node_inv(rng, fail=0.0 if i % 4 else 0.2)
+        if i % 7 == 3 and not failing:
+            # a long list whose elements are references: element order must not depend on workers
+            nbig = rng.choice([256, 300, 700])
+            big = ('l', [S('${px}-%d' % j) for j in range(nbig)])
+            first = sorted(inv.nodes)[0]
+            d = inv.nodes[first]
+            inv.nodes[first] = ('m', [(k, (('m', v[1] + [(S('px'), S('p')), (S('big'), big)]) if k == S('parameters') else v)) for k, v in d[1]])
         cid = C.case_id('t', i)
         base_cases.append({'id': cid, 'line': G.inv_line(cid, inv, 'all'), 'show': G.show_inv(inv, 'all'), 'nontrivial': True,
                            'inv': inv, 'failing': failing})
